@@ -2,11 +2,11 @@
 # dev aid: take a sub-agent's deliverables out of its scratch worktree (/tmp/wt/<id>/MUTANT) into
 # seeded/<id>/, confirm the demonstration both ways in a fresh throw-away worktree (tools/demo.sh),
 # confirm the change builds, and remove the agent's worktree with its build output.
-# usage: tools/harvest.sh <id>...
+# usage: tools/harvest.sh <id>...   (env WT=<worktree> for one id whose worktree lives elsewhere)
 export GOFLAGS=-mod=mod GOPROXY=off GOSUMDB=off GOTOOLCHAIN=local
 GO=/root/go/pkg/mod/golang.org/toolchain@v0.0.1-go1.24.7.linux-amd64/bin/go
 for id in "$@"; do
-  wt=/tmp/wt/$id
+  wt=${WT:-/tmp/wt/$id}
   [ -f "$wt/MUTANT/patch.diff" ] || { echo "$id: no patch.diff in $wt/MUTANT"; continue; }
   d=/verif/seeded/$id
   rm -rf "$d"; mkdir -p "$d"
